@@ -173,6 +173,39 @@ pub fn run_case(voc: &concretise::Vocab, case: &Value, dump: Option<&str>) -> Ve
             }
             let base = g.text.as_ref().map(|t| fnv(t));
             let sibs: Vec<String> = case["siblings"].as_array().map_or(vec![], |a| a.iter().filter_map(|x| x.as_str().map(ToString::to_string)).collect());
+            // the same through the directory scan of utils.rs: the files of the case on disk, plus siblings that are
+            // unreachable from the start file (valid, malformed, not UTF-8, a directory called *.xsd, an unrelated .txt)
+            if case["dirscan"].as_bool().unwrap_or(false) && g.read_outcome == "doc" {
+                let scratch = std::env::var("ZV_SCRATCH").unwrap_or_else(|_| std::env::temp_dir().to_string_lossy().to_string());
+                for kind in ["none", "valid", "malformed", "nonutf8", "dir_named_xsd", "txt"] {
+                    let dir = std::path::PathBuf::from(format!("{scratch}/c11/{}_{}_{kind}", std::process::id(), id));
+                    let _ = std::fs::remove_dir_all(&dir);
+                    std::fs::create_dir_all(&dir).unwrap();
+                    for (n, t) in &files {
+                        std::fs::write(dir.join(n), t).unwrap();
+                    }
+                    match kind {
+                        "valid" => std::fs::write(dir.join("zz_sibling.xsd"), sibling_text("valid")).unwrap(),
+                        "malformed" => std::fs::write(dir.join("zz_sibling.xsd"), sibling_text("malformed")).unwrap(),
+                        "nonutf8" => std::fs::write(dir.join("zz_sibling.xsd"), [0xffu8, 0xfe, 0x00, 0xd8]).unwrap(),
+                        "dir_named_xsd" => std::fs::create_dir_all(dir.join("zz_dir.xsd")).unwrap(),
+                        "txt" => std::fs::write(dir.join("notes.txt"), "not a schema").unwrap(),
+                        _ => {}
+                    }
+                    let loaded = catch_unwind(AssertUnwindSafe(|| zeep_lib::utils::read_input_file_and_xsd_files_at_path(&dir.join(&start))));
+                    let (read, write, same) = match loaded {
+                        Ok(Ok(ftr2)) => {
+                            let g2 = generate(&ftr2, 1, false);
+                            let d2 = g2.text.as_ref().map(|t| fnv(t));
+                            (g2.read_outcome, g2.write_outcome, d2 == base)
+                        }
+                        Ok(Err(e)) => (format!("load_err:{}", err_variant(&e)), "skipped".to_string(), false),
+                        Err(_) => ("load_panic".to_string(), "skipped".to_string(), false),
+                    };
+                    events.push(json!({"ev":"sibling","kind":format!("dir:{kind}"),"read":read,"write":write,"same":same,"base_read":g.read_outcome}).to_string());
+                    let _ = std::fs::remove_dir_all(&dir);
+                }
+            }
             for (k, kind) in sibs.iter().enumerate() {
                 let mut fs2 = files.clone();
                 fs2.push((format!("zz_sibling_{k}.xsd"), sibling_text(kind)));
